@@ -1,6 +1,7 @@
 import Mathlib.Analysis.Real.Pi.Bounds
 import Mathlib.Analysis.Complex.ExponentialBounds
 import Mathlib.NumberTheory.Harmonic.EulerMascheroni
+import Mathlib.Analysis.SpecialFunctions.Log.Base
 import CnlProofs.Numbers
 /-!
 # CnlProofs.NumbersReal — the stored `<numbers>` constants against the TRUE real constants (Mathlib)
@@ -325,7 +326,7 @@ theorem inv_sqrt3_chk : every invSqrt3Encl Generated.numbers_inv_sqrt3 = true :=
 theorem phi_chk : every phiEncl Generated.numbers_phi = true := by decide +kernel
 
 /-- γ: the entries with at most `egammaBits` fractional bits -/
-def egammaBits : Nat := 14
+abbrev egammaBits : Nat := 14
 theorem egamma_chk :
     Generated.numbers_egamma.all (fun e => !decide (e.2.2.1 ≤ egammaBits) || chk egammaEncl e) = true := by decide +kernel
 
@@ -351,7 +352,7 @@ theorem egamma_within1 : ∀ e ∈ Generated.numbers_egamma, e.2.2.1 ≤ egammaB
   fun e he hb => within1_of_all egamma_holds egamma_chk e he (by simpa using hb)
 
 /-- an entry is reached by the real-number theorems: everything except γ beyond `egammaBits` fractional bits -/
-def Covered (name : String) (e : Entry) : Prop := name = "egamma" → e.2.2.1 ≤ egammaBits
+@[reducible] def Covered (name : String) (e : Entry) : Prop := name = "egamma" → e.2.2.1 ≤ egammaBits
 
 /-- all thirteen constants, every generated entry (γ: up to 14 fractional bits): the model stores the tabulated representation
 and it is less than one unit away from the true real constant -/
